@@ -331,6 +331,10 @@ def run(prog, chk):
     chk.rule('R14.5', 'assignment is right-recursive as in the grammar; member modifiers are accepted in any order')
     chk.rule('R14.7', 'multi-declarators keep their source order: the parked declarators are flushed into the same list right after the first one was appended')
     _multi_declarators_in_order(prog, chk)
+    # `@tracked qubit a, b;` must give the tree of `@tracked qubit a; @tracked qubit b;`: each declarator node receives every attribute of the
+    # declaration, finished (C17's R17.7, run here as part of R14.7)
+    from .C17 import _declarator_siblings
+    _declarator_siblings(prog, chk, rule='R14.7')
     chk.rule('R14.8', 'statement dispatch: [final] [@annotation] type name is a declaration (final passed on), every other start goes to its own production')
     _statement_dispatch_table(prog, chk)
     if 'assignmentExpression' in rules and re.search(r'\[\s*"="\s*assignmentExpression\s*\]', rules['assignmentExpression']):
